@@ -5,6 +5,8 @@ import (
 	"encoding/json"
 	"fmt"
 	"math/big"
+	"strconv"
+	"strings"
 	"sync"
 
 	"github.com/crate-crypto/go-ipa/bandersnatch"
@@ -51,6 +53,29 @@ var lambdaGLV = func() *big.Int {
 
 func scalarClass(name string, p *prg) *big.Int {
 	one := big.NewInt(1)
+	// "relb:<j>": a base scalar; "relr:<j>:<i>": its i-th limb relative (same limb xor / sum / single limb / multiset, see limbRelatives);
+	// a trailing "m" puts the limbs into the stored (Montgomery) words instead of the canonical digits
+	if strings.HasPrefix(name, "relb:") || strings.HasPrefix(name, "relr:") {
+		stored := strings.HasSuffix(name, "m")
+		f := strings.Split(strings.TrimSuffix(name, "m"), ":")
+		j, _ := strconv.Atoi(f[1])
+		q := newPrg("relscalar", j)
+		var base [4]uint64
+		for t := range base {
+			base[t] = q.big(60).Uint64() | 1
+		}
+		l := base
+		if f[0] == "relr" {
+			_, rels := limbRelatives(base, q)
+			i, _ := strconv.Atoi(f[2])
+			l = rels[i%len(rels)]
+		}
+		v := bigOfWords(l)
+		if stored {
+			v = montWords(v)
+		}
+		return v.Mod(v, modR)
+	}
 	sh := func(k uint) *big.Int { return new(big.Int).Lsh(one, k) }
 	switch name {
 	case "0":
